@@ -286,6 +286,20 @@ func runC03(s *kernel.Sim) {
 				t.segs = append(t.segs, []string{"x", "y", "z", "w", "X", "Y"}[tp.Choose(6)])
 			}
 		}
+		// the host is part of the URL pattern, label by label: one label more, at either
+		// end, or one label less is another host
+		if tp.Chance(1, 6) {
+			switch tp.Choose(4) {
+			case 0:
+				t.host += "." + []string{"x", "evil", "com"}[tp.Choose(3)]
+			case 1:
+				t.host = []string{"x", "a", "www"}[tp.Choose(3)] + "." + t.host
+			case 2:
+				t.host = t.host[strings.Index(t.host, ".")+1:]
+			case 3:
+				t.host = t.host[:strings.Index(t.host, ".")]
+			}
+		}
 		txns = append(txns, t)
 	}
 
